@@ -70,6 +70,12 @@ def judge_vectors(model: Model, table, vectors: List[Tuple[str, str]], sub=None)
         if verdict != label:
             res["findings"].append(("label-mismatch", cls, f"labelled-{label}", f"{name}: labelled {label}, strict validity is {verdict}: {content[:200]!r}",
                                     {"file": name, "class": cls, "label": label, "json": j}))
+        elif label and kind == "response" and isinstance(j, dict) and (("result" in j) == ("error" in j)):
+            # the base protocol (JSON-RPC 2.0, section 5; LSP ResponseMessage) wants exactly one of result and error in a
+            # response. valid_response() judges the rest of the message; this is judged on its own, under a context of its own
+            res["findings"].append(("label-mismatch", cls, "labelled-True:result-xor-error",
+                                    f"{name}: labelled True with {'both result and error' if 'result' in j else 'neither result nor error'}: {content[:160]!r}",
+                                    {"file": name, "class": cls, "label": label, "json": j}))
         if label and sub is not None:
             try:
                 sub.conv.structure(j, getattr(sub.types, cls))
@@ -176,7 +182,9 @@ def in_process_history(ctx: Ctx, base: dict) -> dict:
             res = judge_vectors(model, class_table(model), list(vectors.items()), None)
             out["vectors"] += res["evaluations"]
             out["rounds"] += 1
-            for f in res["findings"][:5]:
+            # (result together with error is a matter of every run alike - the main leg reports it; this leg looks for what differs
+            #  between rounds)
+            for f in [g for g in res["findings"] if not str(g[2]).endswith("result-xor-error")][:5]:
                 out["findings"].append([f[0], f[1], f"in-process round {i + 1}", f[3][:300]])
             del spec, vectors
             gc.collect()
@@ -236,7 +244,7 @@ def run(ctx: Ctx) -> None:
         "in_process_history": inproc,
     })
     ctx.assumptions = [
-        "strict reading: an empty structure/literal is an open object; result and error may coexist in a response; undeclared params may be absent or null",
+        "strict reading: an empty structure/literal is an open object (the LSP convention for extension points, which the plugin applies to named empty structures as well); undeclared params may be absent or null; result together with error (or neither) in a True response vector is judged separately (known finding KF-testdata-result-and-error)",
         "enumerations are closed per the metamodel (CompletionItemKind closed here: the customisation is python-only)",
     ]
 
